@@ -38,36 +38,19 @@ theorem rbigSimplestFromFloat_zero (k : Quirks) (simpler : Q → Q → Bool) (mo
   unfold rbigSimplestFromFloat fbigIsInfinite simplestFromFBig
   simp [Except.map]
 
-/-- **unlimited precision ⇒ the number itself** (required behaviour; also the code's behaviour for
-    `Zero`, `HalfAway`, `HalfEven`): the reduced fraction of value `signif · b^exp` -/
+/-- **unlimited precision ⇒ the number itself**, for every mode and every setting of the deviation
+    switches (the code returns `Self::try_from(f.clone())` before it asks for the error bounds): the
+    reduced fraction of value `signif · b^exp` -/
 theorem rbigSimplestFromFloat_unlimited (k : Quirks) (simpler : Q → Q → Bool) (mode : RMode)
-    (b : ℕ) (hb : 2 ≤ b) (signif exp : ℤ) (hs : signif ≠ 0)
-    (hk : k.panicUnlimited = false ∨ (mode = .zero ∨ mode = .halfAway ∨ mode = .halfEven)) :
+    (b : ℕ) (hb : 2 ≤ b) (signif exp : ℤ) (hs : signif ≠ 0) :
     ∃ r, rbigSimplestFromFloat k simpler mode b signif exp 0 = .ok (some (some r)) ∧
       Reduced r ∧ r.val = (signif : ℚ) * (b : ℚ) ^ exp := by
   obtain ⟨hv, hd⟩ := scaleQ_val signif b hb exp
   obtain ⟨r, hr, hred, hval⟩ := reduce_spec (scaleQ signif b exp) hd
   refine ⟨r, ?_, hred, by rw [hval, hv]⟩
   have hinf : fbigIsInfinite signif exp = false := by simp [fbigIsInfinite, hs]
-  have hcond : ¬ (k.panicUnlimited = true ∧ (mode = .away ∨ mode = .up ∨ mode = .down)) := by
-    rintro ⟨h1, h2⟩
-    rcases hk with hk | hk
-    · rw [hk] at h1; exact Bool.false_ne_true h1
-    · rcases hk with rfl | rfl | rfl <;> simp at h2
   unfold rbigSimplestFromFloat simplestFromFBig
-  simp only [hinf, Bool.false_eq_true, if_false, if_neg hs, if_true, if_neg hcond, hr]
-  rfl
-
-/-- the recorded defect as a statement about the code's switches: with `panicUnlimited` (the code's
-    `ErrorBounds for Away/Up/Down` call `f.ulp()` unconditionally) a non-zero float of unlimited
-    precision panics instead -/
-theorem rbigSimplestFromFloat_unlimited_code_panics (simpler : Q → Q → Bool) (mode : RMode)
-    (b : ℕ) (signif exp : ℤ) (hs : signif ≠ 0) (hm : mode = .away ∨ mode = .up ∨ mode = .down) :
-    rbigSimplestFromFloat Quirks.code simpler mode b signif exp 0 = .error .unlimitedPrecision := by
-  have hinf : fbigIsInfinite signif exp = false := by simp [fbigIsInfinite, hs]
-  unfold rbigSimplestFromFloat simplestFromFBig
-  simp only [hinf, Bool.false_eq_true, if_false, if_neg hs, if_true,
-    show Quirks.code.panicUnlimited = true from rfl, true_and, if_pos hm]
+  simp only [hinf, Bool.false_eq_true, if_false, if_neg hs, if_true, hr]
   rfl
 
 /-- on finite, non-zero, limited-precision input the wrapper is the finite body -/
